@@ -160,6 +160,36 @@ CLAIMED["C19"] = dict(
          "is compared. Trusted: harness c19.c (parses the framework's own output lines), the driver.",
     ref="6 C19")
 
+CLAIMED["C09"] = dict(
+    category="partial",
+    technique="Lean specification of C11 7.21.6.1 (exact integer and IEEE-754 arithmetic) + model of the scanner, writers and padding + T-corr three ways (implementation / model, glibc / Lean spec, implementation / exact big-integer reference)",
+    text="Theorems: for every format built from c s d i o u x X p %% (all flags, width, precision, '*', length modifiers), every "
+         "argument list and every destination, the model of the formatter writes exactly the specification's text and returns its "
+         "length (formatter_meets_spec; via per-writer lemmas for sign, zero-fill, '#', zero value with zero precision, negative '*' "
+         "width and the padding insertion offsets); laws of the specification: digits are positional notation in every base 2..16 "
+         "without leading zero (natDigits_value), rounding is to nearest with ties to even on the exact quotient "
+         "(roundDiv_nearest_even), field padding law. PARTIAL for f F e E g G: the model places the specification's sign and padding "
+         "around the digit text (float_text_partial); that the implementation's Ryu digit generation yields the specification's "
+         "digits is established by correspondence only (all generated cases, checked against glibc and the exact reference), not by "
+         "a theorem. The type-directed print family is modelled and tied by correspondence (no theorem yet).",
+    note="Trusted: harness c09.c incl. its x86-64 variadic call shape, the driver, the Python reference (oracle). glibc's %#g carry "
+         "bug is arbitrated by the exact reference. Not modelled: %S, %lc, pf_printf/pf_fprintf buffering.",
+    ref="6 C09")
+
+CLAIMED["C10"] = dict(
+    technique="Lean model of struct pf_string and every helper that writes through it as checked primitives (a write outside the destination = none) + T-corr at every limit n on exact-size destinations under ASan",
+    text="Theorems, for every length, capacity and argument: pf_concat / pf_pad / pf_push_char / pf_insert_pad / the integer writers "
+         "with precision zero-fill / the '#o' variant never write outside the destination and leave the first `capacity` bytes of "
+         "the unbounded result (helpers_in_bounds); the float writer does so for EVERY plan of digit-block output steps "
+         "(float_emit_in_bounds: pf_append_utoa/_nine_digits/_c_digits/_d_digits direct and clipped paths); hence for every format "
+         "and arguments with a defined text and every limit n incl. 0: pf_snprintf stays inside n bytes, returns the complete "
+         "length and leaves exactly the first min(len,n) bytes of the complete output, with or without the terminator "
+         "(bounded_prefix).",
+    note="The bounded print/println front ends (byte buffers and strings) are modelled on the same primitives and tied by "
+         "correspondence at every n (no theorem yet). Floats: the emission is proved for every plan; which plan the Ryu code "
+         "computes is C09's correspondence. Trusted: harness c09.c, driver.",
+    ref="6 C10")
+
 PENDING = {}
 
 def main():
